@@ -266,6 +266,12 @@ func C03RegistryCheck() (missing, stale []string, dir string, err error) {
 			missing = append(missing, n)
 		}
 	}
+	// Model = false only for the three carriers whose model is Model/Location.v (correspondence through p0200 ...)
+	for _, t := range C03Types {
+		if !t.Model && t.Name != "T0x0200" && t.Name != "T0x0704" && t.Name != "T0x0801" {
+			stale = append(stale, t.Name+".Model=false")
+		}
+	}
 	// the hand-set flags: a Parse that reads Header.ProtocolVersion must be swept over the three header versions,
 	// one that reads the receiver's dialect over the dialects
 	for _, t := range C03Types {
